@@ -76,7 +76,7 @@ def build_table(tag, byte_strings, tbl=None, rounds=6):
     for rnd in range(rounds):
         pre = PRE + "Definition tbl : list (N * list (bytes * N)) := %s.\n" % tbl.term()
         terms = ["queries (tbl_hash tbl) %s" % hexbytes(b) for b in byte_strings]
-        vals = vf.coq_eval(f"{tag}-q{rnd}", pre, terms, shards=min(vf.NCPU, len(terms)), timeout=1700)
+        vals = vf.coq_eval(f"{tag}-q{rnd}", pre, terms, shards=min(vf.NCPU, max(1, len(terms) // 3)), timeout=1700)
         for i, v in enumerate(vals):
             per[i].update(bytes(q) for q in v)
         qs = [bytes(q) for v in vals for q in v]
@@ -184,11 +184,11 @@ def model_on_variants(tag, seg_table_pairs, variant_terms):
     for i, (seg, tbl) in enumerate(seg_table_pairs):
         if id(tbl) not in names:
             names[id(tbl)] = "tbl%d" % i
-            pre += "Definition tbl%d : list (N * list (bytes * N)) := Eval vm_compute in %s.\n" % (i, tbl.term())
+            pre += "Definition tbl%d : list (N * list (bytes * N)) := %s.\n" % (i, tbl.term())
         else:
             pre += "Definition tbl%d := %s.\n" % (i, names[id(tbl)])
         pre += "Definition seg%d : bytes := Eval vm_compute in %s.\n" % (i, hexbytes(seg))
-    return vf.coq_eval(tag, pre, variant_terms, shards=min(vf.NCPU, max(1, len(variant_terms))), timeout=1700)
+    return vf.coq_eval(tag, pre, variant_terms, shards=min(vf.NCPU, max(1, len(variant_terms) // 4)), timeout=1700)
 
 
 def prefix_model(tag, segs, ks_list):
